@@ -3,7 +3,7 @@
 From Coq Require Import ZArith String.
 From Cicada Require Import Base.Chars Gen.CalcTables Model.Calc
   Proofs.CalcClassify Proofs.CalcPratt Proofs.CalcFusion Proofs.CalcInt Proofs.CalcWf
-  Proofs.CalcPrint Proofs.CalcLine.
+  Proofs.CalcPrint Proofs.CalcLine Proofs.CalcFuel Proofs.CalcText.
 Local Open Scope string_scope.
 
 (** The source sites the hand-written matchers / tokenizer / table were written
@@ -139,6 +139,110 @@ Check C19_string_int : forall (sp : str) (q : ptree str),
   forallb is_blankc sp = true -> leaves_ok q -> has_dot (render_str sp q) = false ->
   run_calculator (render_str sp q) = RInt (Ok (ref_eval (strip q))).
 
+(** (6) Round 9. The parse fuel suffices on EVERY input: [p_expr] (the PEG model of
+    expr = term, then operation-term pairs repeated) never answers out-of-fuel when given fuel of at least
+    2 * length + 3; hence [parse_calc], whose fuel is 4 * length + 8, never does, and
+    [run_calculator] never returns RFuel. Any two fuels above the bound give the same result. *)
+Theorem C19_fuel_suffices : forall (s : str) (fuel : nat),
+  (2 * length s + 3 <= fuel)%nat -> p_expr fuel s <> PFuel.
+Proof. exact p_expr_fuel_suffices. Qed.
+
+Theorem C19_fuel_irrelevant : forall (s : str) (f1 f2 : nat),
+  (2 * length s + 3 <= f1)%nat -> (2 * length s + 3 <= f2)%nat -> p_expr f1 s = p_expr f2 s.
+Proof. exact p_expr_any_fuel. Qed.
+
+Theorem C19_parse_calc_nofuel : forall line : str, parse_calc line <> PFuel.
+Proof. exact parse_calc_nofuel. Qed.
+
+(** crash freedom without the fuel proviso of C19_nocrash_full *)
+Definition C19_nocrash_total_stmt : Prop :=
+  forall line : str,
+    match run_calculator line with
+    | RInt r => exists v, r = Ok v
+    | RFloat r => exists t, r = Ok t
+    | RSyntax => True
+    | RFuel => False
+    end.
+Theorem C19_nocrash_total : C19_nocrash_total_stmt.
+Proof.
+  intros line. pose proof (C19_nocrash line) as H. pose proof (run_calculator_nofuel line) as N.
+  destruct (run_calculator line); try exact H. apply N. reflexivity.
+Qed.
+
+(** (7) Round 9. Text to tree, unbounded, for canonical renderings of trees of NUMBERS.
+    [text sp t]: leaves printed in decimal ([dec], no sign, no leading zeros), operators
+    + - * / ^, parentheses exactly where the standard reading requires them (none redundant),
+    the blank string sp (any blanks / tabs, e.g. empty or one blank) at every token boundary,
+    inside parentheses and around the line. The PEG model accepts the whole text and the Pratt
+    climber returns exactly the tree (leaves = the decimal strings); the decimal strings are
+    read back by parse::<i64> as the numbers. *)
+Theorem C19_render_parse : forall (sp : str) (t : tree N),
+  forallb is_blankc sp = true ->
+  exists ps, parse_calc (text sp t) = POk ps /\ pratt_tree (2 * tot ps + 1) ps = Ok (dtree t).
+Proof. exact render_parse. Qed.
+
+(** the same with the parse fuel explicit: any fuel of at least 2 * (length of the text) + 3 *)
+Theorem C19_render_parse_fuel : forall (sp : str) (t : tree N) (fuel : nat),
+  forallb is_blankc sp = true -> (2 * length (text sp t) + 3 <= fuel)%nat ->
+  exists ps rest, p_expr fuel (skip_ws (text sp t)) = POk (ps, rest) /\ skip_ws rest = [] /\
+                  pratt_tree (2 * tot ps + 1) ps = Ok (dtree t).
+Proof. exact render_parse_fuel. Qed.
+
+Theorem C19_render_line : forall (sp : str) (t : tree N),
+  forallb is_blankc sp = true -> line_tree (text sp t) = Some (dtree t).
+Proof. exact line_tree_text. Qed.
+
+(** ... and integer mode evaluates that text to the reference value of the tree (the text has no dot) *)
+Theorem C19_render_value : forall (sp : str) (t : tree N),
+  forallb is_blankc sp = true -> run_calculator (text sp t) = RInt (Ok (ref_eval (dtree t))).
+Proof. exact run_calculator_text. Qed.
+
+Theorem C19_dec_literal : forall n : N,
+  dec n <> [] /\ forallb is_digit (dec n) = true /\ digits_val 0 (dec n) = Some (Z.of_N n) /\
+  (Z.of_N n <= i64_max -> parse_i64 (dec n) = Some (Z.of_N n)).
+Proof.
+  intros n. split; [apply dec_nonempty|]. split; [apply dec_digits|]. split; [apply dec_val|apply parse_i64_dec].
+Qed.
+
+Check C19_fuel_suffices : forall (s : str) (fuel : nat),
+  (2 * length s + 3 <= fuel)%nat -> p_expr fuel s <> PFuel.
+Check C19_parse_calc_nofuel : forall line : str, parse_calc line <> PFuel.
+Check C19_nocrash_total : C19_nocrash_total_stmt.
+Check C19_render_parse : forall (sp : str) (t : tree N),
+  forallb is_blankc sp = true ->
+  exists ps, parse_calc (text sp t) = POk ps /\ pratt_tree (2 * tot ps + 1) ps = Ok (dtree t).
+Check C19_render_parse_fuel : forall (sp : str) (t : tree N) (fuel : nat),
+  forallb is_blankc sp = true -> (2 * length (text sp t) + 3 <= fuel)%nat ->
+  exists ps rest, p_expr fuel (skip_ws (text sp t)) = POk (ps, rest) /\ skip_ws rest = [] /\
+                  pratt_tree (2 * tot ps + 1) ps = Ok (dtree t).
+
+(** Non-vacuity: mixed precedence, right-associative power, nested parentheses, a multi-digit
+    literal and 0; the text with no blanks and with single blanks; what the model does on it. *)
+Definition ex_n : tree N :=
+  Node Sub (Leaf 1%N)
+    (Node Mul (Node Sub (Leaf 20%N) (Node Pow (Node Add (Leaf 3%N) (Leaf 0%N)) (Leaf 2%N)))
+              (Node Pow (Leaf 4%N) (Node Pow (Node Pow (Leaf 5%N) (Leaf 6%N)) (Leaf 7%N)))).
+Example C19_nonvacuous_render_parse :
+  text [] ex_n = s2l "1-(20-(3+0)^2)*4^(5^6)^7" /\
+  text [32%N] ex_n = s2l " 1 - ( 20 - ( 3 + 0 ) ^ 2 ) * 4 ^ ( 5 ^ 6 ) ^ 7 " /\
+  line_tree (text [32%N] ex_n) = Some (dtree ex_n) /\
+  line_tree (s2l "1-(20-(3+0)^2)*4^(5^6)^7") = Some (dtree ex_n) /\
+  dec 9223372036854775807 = s2l "9223372036854775807" /\ dec 0 = s2l "0" /\
+  run_calculator (text [32%N] (Node Sub (Leaf 1%N) (Node Mul (Node Sub (Leaf 20%N)
+     (Node Pow (Node Add (Leaf 3%N) (Leaf 0%N)) (Leaf 2%N))) (Node Pow (Leaf 2%N) (Node Pow (Leaf 3%N) (Leaf 2%N))))))
+    = RInt (Ok (IVal (-5631))).
+Proof. vm_compute. repeat split. Qed.
+
+(** the bound is not idle: the same texts run out of fuel with less, and parse with exactly 2n+3 *)
+Example C19_nonvacuous_fuel :
+  p_expr 8 (s2l "((((1))))") = PFuel /\
+  p_expr (2 * 9 + 3) (s2l "((((1))))") = POk ([PExpr [PExpr [PExpr [PExpr [PNum (s2l "1")]]]]], []) /\
+  p_expr 5 (s2l "1+2+3+4+5+6") = PFuel /\
+  (exists ps, p_expr (2 * 11 + 3) (s2l "1+2+3+4+5+6") = POk (ps, [])) /\
+  p_expr (2 * 6 + 3) (s2l "((((((") = PFail /\
+  parse_calc (s2l "1^(2^(3^(4^(5^(6^(7^(8^(9)))))))) x") = PFail.
+Proof. vm_compute. repeat split. eexists. reflexivity. Qed.
+
 (** Regression examples: the inputs of the four classes repaired by c1ba25a. *)
 Definition w_lit := s2l "99999999999999999999 + 1".
 Definition w_pow := s2l "2 ^ 64".
@@ -216,3 +320,12 @@ Print Assumptions C19_string_int.
 Print Assumptions C19_string_float.
 Print Assumptions C19_int_literals.
 Print Assumptions C19_parse_print.
+Print Assumptions C19_fuel_suffices.
+Print Assumptions C19_fuel_irrelevant.
+Print Assumptions C19_parse_calc_nofuel.
+Print Assumptions C19_nocrash_total.
+Print Assumptions C19_render_parse.
+Print Assumptions C19_render_parse_fuel.
+Print Assumptions C19_render_line.
+Print Assumptions C19_dec_literal.
+Print Assumptions C19_render_value.
